@@ -133,7 +133,8 @@ impl<'a, A: Alloc<'a>> NvmAlloc<'a, A> {
         }
 
         let (meta, zone) = zone.split_last_mut().ok_or(Error::Memory)?;
-        let meta = meta.cast::<Meta>();
+        // The header is modified: it must not be derived from a shared reference to the frame
+        let meta = meta.cast_mut::<Meta>();
 
         let init = if recover {
             let frames = meta.frames.load(Acquire);
